@@ -97,9 +97,18 @@ func (h *History) Write(s string) (int, error) {
 		return h.Len(), err
 	}
 
-	f, err := os.OpenFile(h.filename, os.O_APPEND|os.O_CREATE|os.O_WRONLY, 0600)
+	f, err := os.OpenFile(h.filename, os.O_APPEND|os.O_CREATE|os.O_RDWR, 0600)
 	if err != nil {
 		return 0, err
+	}
+
+	// if an earlier write was cut short (crash, full disk) the file does not end
+	// in a new line: start a fresh line so this entry is not glued to the torn one
+	if fi, statErr := f.Stat(); statErr == nil && fi.Size() > 0 {
+		last := make([]byte, 1)
+		if _, readErr := f.ReadAt(last, fi.Size()-1); readErr == nil && last[0] != '\n' {
+			b = append([]byte{'\n'}, b...)
+		}
 	}
 
 	_, err = f.Write(append(b, '\n'))
